@@ -82,6 +82,19 @@ func collisionFamilies() [][]uval {
 		uvPred(mustTmp("p", far(2500, 1, 1))), uvPred(mustTmp("p", far(2500, 1, 1).In(zoneW))), uvPred(mustTmp("p", far(9999, 12, 31).In(zoneE))),
 		uvPred(mustTmp("p", far(9999, 12, 31))),
 	})
+	// blank nodes: the ID of a blank node is the text of a UUID, but its identity is the hash of type and ID like any
+	// node's — two spellings of one UUID are two nodes, and a blank node named after another node's UUID is not that node
+	{
+		const u = "385060d0-4f66-4a1e-9d3a-0c8f6f3a1b2c"
+		alice := mustNode("/u", "alice")
+		fam := []uval{uvNode(alice)}
+		for _, id := range []string{u, strings.ToUpper(u), "urn:uuid:" + u, "{" + u + "}", strings.ReplaceAll(u, "-", ""), alice.UUID().String(), strings.ToUpper(alice.UUID().String())} {
+			if n, err := node.NewNodeFromStrings("/_", id); err == nil {
+				fam = append(fam, uvNode(n))
+			}
+		}
+		fams = append(fams, fam)
+	}
 	// triples that differ in exactly one of the near-colliding components
 	mkT := func(s *node.Node, p *predicate.Predicate, o *triple.Object) uval {
 		t, _ := triple.New(s, p, o)
